@@ -33,3 +33,7 @@ Definition run_glr_211 (s : sx) : sx :=
 From PV Require Import Spec.GLRSpec.
 Definition run_glr_212 (s : sx) : sx :=
   ofB (glr_tok_checks (pconf_of_sx (sx_nth s 0)) (pinput_of_sx (sx_nth s 1))).
+
+(* 213: the conditions for any consume_input: (pconf pinput) -> bool *)
+Definition run_glr_213 (s : sx) : sx :=
+  ofB (glr_tok_checks0 (pconf_of_sx (sx_nth s 0)) (pinput_of_sx (sx_nth s 1))).
